@@ -173,8 +173,8 @@ def run_harness(case_files, wd, timeout=3600):
                 rc, out = sh([BIN, "run", cur, tmp], timeout=timeout)
             except subprocess.TimeoutExpired:
                 raise ToolError("harness timed out on " + cur)
-            if rc == 2:
-                raise ToolError("harness error: " + out[-500:])
+            if rc == 2 or "harness:" in out:
+                raise ToolError("harness error (not a finding about the code under test): " + out[-500:])
             lines = open(tmp, "rb").read().split(b"\n")
             if rc == 0:
                 with open(ef, "ab") as f:
